@@ -107,7 +107,7 @@ def build_and_run(si, insts, decls, flavour, nrandom, dropped):
     src = os.path.join(d, f"s{si}.cc")
     exe = os.path.join(d, f"s{si}.exe")
     insts = list(insts)
-    for attempt in range(4):
+    for attempt in range(12):
         core.write(src, emit_tu(insts, decls))
         rc, se = core.build(src, exe, flavour)
         if rc == 0:
